@@ -181,10 +181,46 @@ def run_hyp(facet, tally, tier, seed, shard, nshards):
         # any other exception: harness problem, propagates
 
 
+def run_fuzz(job):
+    """one atheris/libFuzzer session in a child process (libFuzzer never returns from Fuzz())"""
+    import subprocess, tempfile, shutil
+    prop_id, facet_name, tier, seed, _, runs = job
+    scratch = tempfile.mkdtemp(prefix="fuzz-", dir=_scratch_dir())
+    outp = os.path.join(scratch, "out.json")
+    try:
+        env = dict(os.environ, PYTHONPATH=VERIF_DIR)
+        p = subprocess.run([sys.executable, "-m", "vlib.fuzz", prop_id, facet_name, tier, str(seed), str(runs), outp, os.path.join(scratch, "corpus")],
+                           cwd=VERIF_DIR, env=env, capture_output=True, text=True, timeout=3 * 3600)
+        st = json.load(open(outp)) if os.path.exists(outp) else {"available": False, "note": "no output: " + (p.stderr or "")[-300:]}
+        if st.get("available") and not st.get("failures") and p.returncode not in (0,):
+            # libFuzzer died without a recorded property failure: harness problem
+            return {"error": "atheris session failed (rc=%s): %s" % (p.returncode, (p.stdout + p.stderr)[-1500:])}
+        return {"evaluations": st.get("evaluations", 0), "rejected": 0, "nontrivial_count": st.get("nontrivial", 0), "digests": set(),
+                "classes": st.get("classes", {}), "known": st.get("known", {}), "masked": {}, "samples": st.get("samples", []),
+                "failures": st.get("failures", []), "error": None,
+                "fuzz": {"available": st.get("available", False), "note": st.get("note", ""), "runs_requested": runs,
+                         "executions_recorded": st.get("evaluations", 0), "wall_s": round(st.get("wall", 0), 1)}}
+    finally:
+        shutil.rmtree(scratch, ignore_errors=True)
+
+
+def _scratch_dir():
+    d = os.path.join(VERIF_DIR, ".scratch")
+    os.makedirs(d, exist_ok=True)
+    return d
+
+
 def work(job):
     prop_id, facet_name, tier, seed, shard, nshards = job
     t0 = time.time()
     out = {"job": job, "error": None}
+    if shard == "fuzz":
+        try:
+            out.update(run_fuzz(job))
+        except BaseException as e:
+            out["error"] = "".join(traceback.format_exception(type(e), e, e.__traceback__))[-4000:]
+        out["wall"] = time.time() - t0
+        return out
     try:
         mod = load_property(prop_id)
         facet = find_facet(mod, facet_name)
@@ -278,6 +314,8 @@ def run_property(prop_id, tier, seed, only=None, jobs=None):
         k = f.shards.get(tier, 4)
         for s in range(k):
             joblist.append((prop_id, f.name, tier, seed, s, k))
+        if f.strategy is not None and f.fuzz.get(tier) and not os.environ.get("VERIF_NO_FUZZ"):
+            joblist.append((prop_id, f.name, tier, seed, "fuzz", f.fuzz[tier]))
     weight = getattr(mod, "WEIGHT", {})
     joblist.sort(key=lambda j: -weight.get(j[1], 1))
     results = []
@@ -337,6 +375,10 @@ def run_property(prop_id, tier, seed, only=None, jobs=None):
             "wall_s": round(max([r["wall"] for r in rs] or [0]), 2), "shards": len(rs),
             "samples": fsamples[:2],
         }
+        fz = [r["fuzz"] for r in rs if r.get("fuzz")]
+        if fz:
+            per_facet[f.name]["atheris"] = fz[0]
+            per_facet[f.name]["engine"] = "hypothesis + atheris(libFuzzer) on the same test"
         total_eval += ev
         total_rej += per_facet[f.name]["rejected_as_allowed"]
         nontriv += nt
